@@ -44,6 +44,7 @@ MonShipped ==
 \* generated configurations: the real Main ends the way the start-up machine says
 MonGenerated ==
     /\ Check("C12", "StartupOutcomeAsModel", Ev.outcome \in Allowed(Ev.entries))
+    /\ Check("C02", "EveryEntryIsCheckedAgainstItsOwnKey", (\E j \in 1..Len(Ev.entries) : Ev.entries[j].key = "stalehash") => Ev.outcome = "failed")
     /\ Check("C12", "DuplicateIdsRefused",
              (\E j, k \in 1..Len(Ev.entries) : j # k /\ Ev.entries[j].origin = Ev.entries[k].origin) => Ev.outcome = "failed")
 
